@@ -631,6 +631,24 @@ EXTRA17 = {
 }
 
 
+# addenda of round 18 (technique, text)
+EXTRA18 = {
+    'C02': ('ids and rows of a chunk cut by the same bounds (rule of C01)',
+            'The votes recorded under a cell id are the votes on that '
+            'cell\'s own row.'),
+    'C05': ('extent provenance of converted pointer arrays',
+            'A converted sparse group gets a pointer array over the other '
+            'axis, never one shaped like the input\'s '
+            '(R-AXIS/converted-pointer-extent).'),
+    'C11': ('totals of counts in the kind analysis of chosen integer types',
+            'Gene indexes are stored in a type sized from the largest '
+            'index, not from how many there are.'),
+    'C17': ('one-sided reconciliation (rule of C01)',
+            'A marker table that holds more than the reduced tree is not '
+            'refused.'),
+}
+
+
 def main():
     checks = []
     for pid in ALL:
@@ -641,6 +659,11 @@ def main():
             tech = tech + '; ' + EXTRA[pid][0]
             text = text + ' ' + EXTRA[pid][1]
             ref = ref + ' and section 15'
+        if pid in EXTRA18:
+            tech = tech + '; ' + EXTRA18[pid][0]
+            text = text + ' ' + EXTRA18[pid][1]
+            if 'section 15' not in ref:
+                ref = ref + ' and section 15'
         if pid in EXTRA17:
             tech = tech + '; ' + EXTRA17[pid][0]
             text = text + ' ' + EXTRA17[pid][1]
